@@ -5,6 +5,7 @@ import Mathlib.Tactic.Linarith
 import Mathlib.Tactic.FieldSimp
 import Mathlib.Tactic.LinearCombination
 import Mathlib.Tactic.Positivity
+import Mathlib.Algebra.Field.Basic
 /-! Helper lemmas for C15 (kept apart from the property theorems). -/
 namespace BiotiteModel.C15
 
@@ -59,6 +60,25 @@ theorem lagrange (u v : V3 R) :
   simp only [V3.normSq, V3.dot, V3.cross]; ring
 
 end Ring
+
+/-! ### unit cell ↔ vectors, over any field -/
+section Cell
+variable {F : Type} [Field F]
+
+/-- With `sin²γ = 1 − cos²γ`, `sin γ ≠ 0` and `c_z² = c² − c_x² − c_y²`, the box built by
+`vectors_from_unitcell` has exactly the squared lengths and dot products of the requested cell. -/
+theorem cellSq_vectorsFromCell (la lb lc ca cb cg sg cz : F) (hsg : sg ≠ 0) (hs : sg * sg = 1 - cg * cg)
+    (hz : cz * cz = lc * lc - (lc * cb) * (lc * cb) - (lc * (ca - cb * cg) / sg) * (lc * (ca - cb * cg) / sg)) :
+    cellSqFromVectors (vectorsFromCell la lb lc ca cb cg sg cz) =
+      ⟨la * la, lb * lb, lc * lc, lb * lc * ca, la * lc * cb, la * lb * cg⟩ := by
+  simp only [cellSqFromVectors, vectorsFromCell, V3.dot, CellSq.mk.injEq]
+  refine ⟨by ring, ?_, ?_, ?_, by ring, by ring⟩
+  · linear_combination (lb * lb) * hs
+  · linear_combination hz
+  · field_simp
+    ring
+
+end Cell
 
 /-! ## Part B — rational vectors, fractions, lattice -/
 
